@@ -420,9 +420,9 @@ func applyC13(t *rapid.T, base World, kind string) (World, bool) {
 		switch {
 		case prof.Validity.Empty():
 			prof.Validity = &core.Validity{Duration: "11y"}
-		case prof.Validity.From != "" && rapid.Bool().Draw(t, "pv-from"):
+		case prof.Validity.From != "" && rapid.IntRange(0, 2).Draw(t, "pv-from") != 0:
 			v := *prof.Validity
-			v.From = "2021-06-07"
+			v.From = rapid.SampledFrom([]string{"2021-06-07", "2020-05-07", "2019-12-31"}).Draw(t, "pv-newfrom")
 			prof.Validity = &v
 		case prof.Validity.Until != "":
 			v := *prof.Validity
@@ -529,6 +529,21 @@ func TestC13(t *testing.T) {
 			lf.Extensions = append(lf.Extensions, bc)
 			if after, ok := applyC13(t, base, "edit:bc-pathlen-zero"); ok {
 				return c13Case{Base: base, Kind: "edit:bc-pathlen-zero", After: after}
+			}
+		}
+		if rapid.IntRange(0, 9).Draw(t, "with-profile-validity") == 0 {
+			// the leaf has no validity block of its own: whatever the profile says about the period is the period
+			lf := target(&base)
+			lf.Validity = nil
+			var prof *core.Profile
+			if lf.Profile == "" {
+				base.Profs = append(base.Profs, core.Profile{File: "profiles/leafprofile.yaml", Name: "leaf profile"})
+				lf.Profile = "leaf profile"
+			}
+			prof = base.Prof(lf.Profile)
+			prof.Validity = rapid.SampledFrom([]*core.Validity{{From: "2020-05-06", Duration: "2y6m"}, {From: "2020-05-06", Until: "2035-07-08"}, {Duration: "1y"}, {From: "2020-05-06"}, {Until: "2035-07-08"}}).Draw(t, "pv-shape")
+			if after, ok := applyC13(t, base, "edit:profile-validity"); ok {
+				return c13Case{Base: base, Kind: "edit:profile-validity", After: after}
 			}
 		}
 		// draw kinds until one applies (bounded), so every class keeps its share
